@@ -74,7 +74,7 @@ CLAIMED = {
         design='DESIGN.md §7 C14', note=BASE_NOTE + ' Python re is trusted for non-literal patterns (oracle only).'),
     'C20': dict(
         technique='Lean 4 theorems (axis permutation lemma for all 48 transforms, reversed list follows flipped data, TM string model) + header oracle on conversions + TM correspondence',
-        text='For each of the 48 transforms output axis permutation[i] is proved to carry source axis i (so the header slice axis is the stacking axis and freq/phase keep their world directions); slice times are read from the reversed list, proved to hold at position k the file shown at output slice k; colons are proved ignored, 2- and 4-digit TM forms proved for all digits, 6+-digit forms by kernel-evaluated instances and correspondence; the two Python functions are proved AST-identical by the translator. Header dim_info / pixdim[4] / slice times checked against geometry and source times for all acquisition patterns.',
+        text='For each of the 48 transforms output axis permutation[i] is proved to carry source axis i (so the header slice axis is the stacking axis and freq/phase keep their world directions); slice times are read from the reversed list, proved to hold at position k the file shown at output slice k; colons are proved ignored, 2- and 4-digit TM forms proved for all digits, 6+-digit forms by kernel-evaluated instances and correspondence; the two Python functions are proved AST-identical by the translator. The header block of to_nifti is modelled: when slice timing is recorded it is proved right for every volume (slice_times_every_volume, slice_times_inconsistent_none), pixdim[4] is proved recorded iff every file of the stack carries the same repetition time (tr_recorded_iff, over all add_dcm sequences), dim_info follows the permutation (dim_info_spec); header_info correspondence after every conversion. Header dim_info / pixdim[4] / slice times checked against geometry and source times for all acquisition patterns.',
         design='DESIGN.md §7 C20', note=BASE_NOTE + ' nibabel set_slice_times / slice codes and binary64 rounding of the sum are trusted.'),
     'C09': dict(
         technique='Lean 4 theorems (token-level decode∘encode = id for every nesting, encoder injective, NUL padding strip) + byte-exact printer correspondence + file round trips',
